@@ -899,7 +899,10 @@ class ODLParser(PVLParser):
         # The decoder's real_cls is what it makes real numbers with,
         # which need not be float.
         real_cls = getattr(self.decoder, "real_cls", float)
-        if isinstance(value, (int, float, real_cls)):
+        # (TRUE and FALSE decode to bool, which Python counts as an int.)
+        if isinstance(value, (int, float, real_cls)) and not isinstance(
+            value, bool
+        ):
             return super().parse_units(value, tokens)
 
         else:
